@@ -20,6 +20,7 @@ import SqiProofs.C17.Rand
 import SqiProofs.C17.Cornacchia
 import SqiProofs.C17.Conv
 import SqiProofs.C17.Kernel
+import SqiProofs.C17.Kernel2
 import SqiProofs.Primes
 
 namespace SqiProps.C17
@@ -466,10 +467,14 @@ example : twoAdicValuationOfIbz (2 ^ 32) = 0 ∧ (2 : Int) ^ 32 ∣ 2 ^ 32 ∧ t
 kernel of dimension exactly 1.  Proved (for EVERY prime p, EVERY integer matrix, generic in rows × cols):
 whenever a vector is returned it is non-zero modulo p and M·v ≡ 0 (mod p) — invariant of the elimination
 (kernel inclusion, pivot columns, pivot-free rows), by induction over the columns.
-NOT proved (partial): "dimension-1 kernel ⇒ a vector is returned" (completeness) and absence of the `ub` outcome
-(pivot always invertible) — both are checked by the correspondence run against an independent rank computation.
-The Howell-form routine `ibz_4x4_right_ker_mod_power_of_2` (matkermod.c) has no model and no theorem: oracle-tested
-only (see notes/C17.md). -/
+Also proved (this round): the routine never takes the `ub` exit for a prime modulus (entries stay reduced, so every
+pivot is invertible) and COMPLETENESS — if the right kernel modulo p is a line, a vector is returned
+(`ker_mod_prime_never_ub`, `ker_mod_prime_complete`).  Together: for every prime p and every integer matrix whose kernel
+mod p is one-dimensional the routine returns a non-zero kernel vector.  (If the kernel has another dimension the routine
+returns 0 by design: it only answers for dimension exactly 1.)
+The Howell-form routine `ibz_4x4_right_ker_mod_power_of_2` (matkermod.c) has a faithful executable model
+(`SqiModel.Howell`, tied by correspondence incl. the intermediate Howell form and transformation matrix) but no
+soundness theorem of the algorithm itself: every vector it returns is certified by the proved-sound checker of §9. -/
 
 theorem ker_mod_prime_sound (pn : Nat) (hp : pn.Prime) (rows cols : Nat) (mat : Mat) (ker : List Int)
     (h : rightKerModPrime rows cols mat pn = .ok ker) :
@@ -477,6 +482,23 @@ theorem ker_mod_prime_sound (pn : Nat) (hp : pn.Prime) (rows cols : Nat) (mat : 
     ∀ i < rows, ∑ s ∈ Finset.range cols, ((get mat i s : Int) : ZMod pn) * ((ker.getD s 0 : Int) : ZMod pn) = 0 := by
   haveI := Fact.mk hp
   exact rightKerModPrime_sound pn rows cols mat ker h
+
+/-- never `ub`: for a prime modulus every pivot is invertible -/
+theorem ker_mod_prime_never_ub (pn : Nat) (hp : pn.Prime) (rows cols : Nat) (mat : Mat) :
+    rightKerModPrime rows cols mat pn ≠ .ub := by
+  haveI := Fact.mk hp
+  exact rightKerModPrime_ne_ub pn rows cols mat
+
+/-- completeness: if the right kernel of `mat` modulo p is the line spanned by a non-zero v0, a vector is returned
+    (and by `ker_mod_prime_sound` it is a non-zero kernel vector) -/
+theorem ker_mod_prime_complete (pn : Nat) (hp : pn.Prime) (rows cols : Nat) (mat : Mat) (v0 : Nat → ZMod pn)
+    (hv0 : ∃ s < cols, v0 s ≠ 0)
+    (hker0 : ∀ i < rows, ∑ s ∈ Finset.range cols, ((get mat i s : Int) : ZMod pn) * v0 s = 0)
+    (hline : ∀ v : Nat → ZMod pn, (∀ i < rows, ∑ s ∈ Finset.range cols, ((get mat i s : Int) : ZMod pn) * v s = 0) →
+      ∃ c : ZMod pn, ∀ s < cols, v s = c * v0 s) :
+    ∃ ker, rightKerModPrime rows cols mat pn = .ok ker := by
+  haveI := Fact.mk hp
+  exact rightKerModPrime_complete pn rows cols mat v0 hv0 hker0 hline
 
 /-- the two instances used by the library -/
 theorem ker_4x4_mod_prime_sound (pn : Nat) (hp : pn.Prime) (mat : Mat) (ker : List Int)
